@@ -159,3 +159,7 @@ def check(model, rep):
         ok = ilr.same(wb[0].args[0], '%s.copy()@tm(SOL)' % bp, roles=R) and ilr.same(wb[0].args[1], '%s.copy()' % bp, roles=R)
     rep.ob('R09.3', fr, 'solved pose = bottom pose @ tm(relative solution), written back through _IKHelper(top, bottom)', ok,
            'write-back is _IKHelper(%s)' % got)
+    # ---------------------------------------------------------------- R09.4
+    rep.rule('R09.4', 'the inversion test FK applies to a solver result measures the top plate height in the bottom plate\'s frame')
+    from .c10 import constraint_definitions
+    constraint_definitions(model, rep, 'R09.4', only={'_continuousTranslationConstraint'})
